@@ -369,9 +369,25 @@ def _free(ix, rep):
     """R-C22-free: the device wrapper must exclude *every* circuit wire from the registers it hands to the allocator."""
     rep.rule("R-C22-free", "in device_resolve_dynamic_wires the device wires offered to the allocator (zeroed=/any_state=) are filtered by "
              "membership in the set of ALL circuit wires (operations and measurements), and min_int is computed over ALL circuit wires")
-    f = ix.func(PRE, "device_resolve_dynamic_wires")
+    f0 = ix.func(PRE, "device_resolve_dynamic_wires")
+    pm = ix.module(PRE)
+    todo = [(f0, f0.node.args.args[0].arg)]
+    # helpers of the module that are handed the tape: their filters count as the wrapper's
+    for c_ in ast.walk(f0.node):
+        if isinstance(c_, ast.Call) and isinstance(c_.func, ast.Name) and c_.func.id in pm.functions and c_.func.id != f0.name:
+            g_ = pm.functions[c_.func.id]
+            gp_ = [a_.arg for a_ in g_.node.args.args]
+            for i_, a_ in enumerate(c_.args):
+                if isinstance(a_, ast.Name) and a_.id == todo[0][1] and i_ < len(gp_):
+                    todo.append((g_, gp_[i_]))
+    n_sites = 0
+    for f, tape in todo:
+        n_sites += _free_scan(ix, rep, f, tape)
+    rep.floor("free-wire filters in device_resolve_dynamic_wires", n_sites, 2)
+
+
+def _free_scan(ix, rep, f, tape):
     rep.analysed(PRE, f.qualname)
-    tape = f.node.args.args[0].arg
     defs = {}
     for n in walk_shallow(f.node):
         if isinstance(n, ast.Assign) and len(n.targets) == 1 and isinstance(n.targets[0], ast.Name):
@@ -426,7 +442,7 @@ def _free(ix, rep):
                             f"min_int is computed over {norm(g.iter)}, which covers only part of the circuit: a fresh label can coincide with a static wire")
             else:
                 rep.unknown("R-C22-free", where, "wire set not resolved")
-    rep.floor("free-wire filters in device_resolve_dynamic_wires", n_sites, 2)
+    return n_sites
 
 
 def _map(ix, rep, m):
@@ -465,6 +481,34 @@ def _map(ix, rep, m):
     for k in ("Allocate", "Deallocate", "other"):
         if k not in branches:
             raise AnalysisError(f"_new_ops: branch for {k} not found")
+    # a branch that only delegates to a helper of this module (`h(op, manager, wire_map[, deallocated])`, possibly behind
+    # `yield from`) is replaced by the helper's body with the parameters renamed to the caller's names
+    import copy
+    alloc_fn = f.node
+    for k in ("Allocate", "Deallocate"):
+        stmts = [s_ for s_ in branches[k] if not (isinstance(s_, ast.Expr) and isinstance(s_.value, ast.Constant))]
+        if len(stmts) != 1 or not isinstance(stmts[0], ast.Expr):
+            continue
+        v_ = stmts[0].value
+        c_ = v_.value if isinstance(v_, (ast.YieldFrom, ast.Await)) else v_
+        if not (isinstance(c_, ast.Call) and isinstance(c_.func, ast.Name) and c_.func.id in m.functions and not c_.keywords
+                and all(isinstance(a_, ast.Name) for a_ in c_.args)):
+            continue
+        g_ = m.functions[c_.func.id]
+        gp_ = [a_.arg for a_ in g_.node.args.args]
+        if len(gp_) != len(c_.args):
+            continue
+        ren = {p_: a_.id for p_, a_ in zip(gp_, c_.args)}
+        gcopy = copy.deepcopy(g_.node)
+        for n_ in ast.walk(gcopy):
+            if isinstance(n_, ast.Name) and n_.id in ren:
+                n_.id = ren[n_.id]
+            elif isinstance(n_, ast.arg) and n_.arg in ren:
+                n_.arg = ren[n_.arg]
+        branches[k] = gcopy.body
+        rep.analysed(m.relpath, g_.qualname)
+        if k == "Allocate":
+            alloc_fn = gcopy
     # Allocate
     body = ast.Module(body=branches["Allocate"], type_ignores=[])
     got = None
@@ -490,7 +534,7 @@ def _map(ix, rep, m):
         ys = [n for n in ast.walk(body) if isinstance(n, (ast.YieldFrom, ast.Yield)) and n.value is not None and ops_var and ops_var in norm(n.value)]
         if ops_var and ys:
             # per hand-out: between one get_wire call and the next (or the end of the generator) the returned ops are emitted
-            fcfg = CFG(f.node, may_raise=lambda n: False)
+            fcfg = CFG(alloc_fn, may_raise=lambda n: False)
 
             def is_emit(x):
                 s_ = x.stmt
